@@ -640,6 +640,13 @@ func rulePanicInventory(c *Ctx, rule string, roots []*ssa.Function, pkgs []strin
 				}
 				return
 			}
+			if why, miss := c.assertionChainComplete(fn, p, prods); why != "" {
+				ob.OKnt(why + " " + msg)
+				return
+			} else if miss != "" {
+				ob.Bad(fmt.Sprintf("panic %s is reached by values of type %s, which the chain of type assertions in front of it does not handle", msg, miss))
+				return
+			}
 			if why := c.missOfCompleteMap(fn, p); why != "" {
 				ob.OKnt(why)
 				return
@@ -1470,4 +1477,62 @@ func (c *Ctx) outsideEnumRange(fn *ssa.Function, p *ssa.Panic) string {
 		return ""
 	}
 	return fmt.Sprintf("reached only when a %s lies outside [%d, %d); all %d constants of the type lie inside (bounds check of a table indexed by the enum): unreachable", enum.Obj().Name(), lo, hi, n)
+}
+
+// assertionChainComplete: the panic stands behind a chain of comma-ok type assertions on one interface value, each of which has
+// said no (`if f, ok := ci.(FindCommand); ok { return ... }` three times, then panic): the chain is a type switch written out.
+// It is complete when every concrete type converted to the interface of the value has its assertion.
+func (c *Ctx) assertionChainComplete(fn *ssa.Function, p *ssa.Panic, prods map[*types.Named]map[string][]string) (why, missing string) {
+	bySubject := map[ssa.Value]map[string]bool{}
+	for _, l := range domConds(fn, p.Block()) {
+		if l.Pol {
+			continue
+		}
+		ex, ok := l.Cond.(*ssa.Extract)
+		if !ok || ex.Index != 1 {
+			continue
+		}
+		ta, ok := ex.Tuple.(*ssa.TypeAssert)
+		if !ok || !ta.CommaOk {
+			continue
+		}
+		if bySubject[ta.X] == nil {
+			bySubject[ta.X] = map[string]bool{}
+		}
+		bySubject[ta.X][types.TypeString(ta.AssertedType, shortQual)] = true
+	}
+	for subj, cases := range bySubject {
+		if len(cases) < 2 {
+			continue
+		}
+		// the interface of the subject: its own type, or the repository interface it was widened from (`var ci any = *command`)
+		v := subj
+		for i := 0; i < 4; i++ {
+			if ci, ok := v.(*ssa.ChangeInterface); ok {
+				v = ci.X
+				continue
+			}
+			if mi, ok := v.(*ssa.MakeInterface); ok {
+				v = mi.X
+				continue
+			}
+			break
+		}
+		n, ok := v.Type().(*types.Named)
+		if !ok || !types.IsInterface(n) || prods[n] == nil {
+			continue
+		}
+		var miss []string
+		for t := range prods[n] {
+			if !cases[t] {
+				miss = append(miss, t)
+			}
+		}
+		sort.Strings(miss)
+		if len(miss) == 0 {
+			return fmt.Sprintf("behind a chain of %d type assertions that has one for every concrete type converted to %s", len(cases), n.Obj().Name()), ""
+		}
+		return "", strings.Join(miss, ", ")
+	}
+	return "", ""
 }
